@@ -2,6 +2,7 @@ package h
 
 import (
 	"errors"
+	"fmt"
 	"sync/atomic"
 
 	"github.com/vedadiyan/genql"
@@ -145,6 +146,13 @@ func FaultCheck(c Node, focus string) Verdict {
 			if focus == "C11" && !Equal(any(doc), pristine) {
 				return fail("docmut", sql, ksig, "after a failed and a successful run the caller's document is %s", Canon(any(doc)))
 			}
+			// ... the very same Query object executed once more, the fault gone
+			if focus == "C19" {
+				if msg := retrySameQuery(FromTagged(c["doc"]).(map[string]any), sql, k, opts, want, same); msg != "" {
+					return fail("followup", sql, append(ksig, "retry"), "invocation %d of %d failing, then the same Query executed again: %s", k, n, msg)
+				}
+				v.Execs += 2
+			}
 			// ... and a different statement that returns the input rows as they are
 			doc3 := FromTagged(c["doc"]).(map[string]any)
 			runCounting(doc3, sql, k, opts)
@@ -156,6 +164,39 @@ func FaultCheck(c Node, focus string) Verdict {
 		}
 	}
 	return v
+}
+
+// retrySameQuery: New, an Exec in which invocation k fails, then Exec again on the same object without a fault.
+// Faults that strike while New builds the query (CTE bodies, derived tables and joins are evaluated there) leave
+// no object to retry: nothing to check.
+func retrySameQuery(doc map[string]any, sql string, k int64, opts []string, want []any, same func(got, exp []any) bool) (msg string) {
+	defer func() {
+		atomic.StoreInt64(&boomFailAt, 0)
+		if p := recover(); p != nil {
+			msg = fmt.Sprintf("panic escaped the API: %v", p)
+		}
+	}()
+	atomic.StoreInt64(&boomCount, 0)
+	atomic.StoreInt64(&boomFailAt, k)
+	q, err := genql.New(doc, sql, Opts(opts, nil, nil)...)
+	if err != nil {
+		return ""
+	}
+	if rows, err := q.Exec(); err == nil {
+		if atomic.LoadInt64(&boomCount) < k {
+			return "" // the k-th invocation belongs to a part this run does not get to
+		}
+		return fmt.Sprintf("the run with the fault reported no failure: %s", Canon(any(rows)))
+	}
+	atomic.StoreInt64(&boomFailAt, 0)
+	rows, err := q.Exec()
+	if err != nil {
+		return fmt.Sprintf("second Exec fails: %v", err)
+	}
+	if !same(rows, want) {
+		return fmt.Sprintf("second Exec returns %s, the fault-free result is %s", Canon(any(rows)), Canon(any(want)))
+	}
+	return ""
 }
 
 func okWord(o Outcome) string {
